@@ -64,3 +64,37 @@ Proof.
       cbn [shape fdt'] in Hs; destruct Hs as [Hd _]; subst dt; cbn [interp fdt' fnullable'] in *; rewrite Bool.orb_false_r in Hi; destruct nl; first [reflexivity|discriminate Hi].
   - cbn [push wt interp] in *. apply (IHv f b lv Hb Hs Hw Hi).
 Qed.
+
+(* ---- variable-width leaves: the same, given room in the offset type ---- *)
+Definition room (wide : bool) (offs : list Z) (n : nat) : Prop :=
+  let k := if wide then I64 else I32 in in_int k (Z.of_nat n) = true /\ in_int k (last offs 0 + Z.of_nat n)%Z = true.
+
+Lemma last_dup offs : last (duplicate_last offs) 0%Z = last offs 0%Z.
+Proof. unfold duplicate_last. rewrite last_last. reflexivity. Qed.
+
+Lemma increment_room wide offs n : room wide offs n -> exists offs', increment_last wide (duplicate_last offs) n = Ok offs'.
+Proof.
+  intros [H1 H2]. unfold increment_last. rewrite last_dup. destruct wide; rewrite H1; cbn [negb]; rewrite H2; eexists; reflexivity.
+Qed.
+
+Lemma bytes_progress v f k val offs data s : shape f (BdUtf8 k val offs data) -> wt v ->
+  (match v with VNone | VSome _ | VUnit | VUnitStruct | VNewtypeStruct _ => False | _ => True end) ->
+  interp f v = IOk (LBytes s) -> room (is_wide k) offs (length s) -> exists b', push v (BdUtf8 k val offs data) = Ok b'.
+Proof.
+  intros Hs Hw Hplain Hi Hr. destruct f as [nm dt nl]. cbn [shape fdt'] in Hs. destruct Hs as [Hd Hv]. subst dt.
+  destruct (increment_room _ _ _ Hr) as (offs' & Hinc).
+  destruct (is_utf8_kind k) eqn:Hu.
+  - assert (Ht : text_of_scalar v = IOk (LBytes s)) by (destruct k; try discriminate Hu; destruct v; try contradiction; exact Hi).
+    assert (E : push v (BdUtf8 k val offs data) =
+                match text_of_scalar v with
+                | IOk (LBytes s0) => do val' <- set_validity val (length offs - 1) true ;; do offs' <- increment_last (is_wide k) (duplicate_last offs) (length s0) ;; Ok (BdUtf8 k val' offs' (data ++ s0))
+                | _ => Err end) by (destruct v; try contradiction; cbn [push]; rewrite Hu; reflexivity).
+    rewrite E, Ht. destruct val; cbn [set_validity bind]; rewrite Hinc; cbn [bind]; eexists; reflexivity.
+  - assert (Hb : binary_of_value v = Ok s).
+    { destruct k; try discriminate Hu; destruct v; try contradiction; cbn [interp fdt'] in Hi; try discriminate Hi; cbn [binary_of_value];
+        try (injection Hi as ->; reflexivity); rewrite Hi; reflexivity. }
+    assert (E : push v (BdUtf8 k val offs data) =
+                do s0 <- binary_of_value v ;; do val' <- set_validity val (length offs - 1) true ;; do offs' <- increment_last (is_wide k) (duplicate_last offs) (length s0) ;; Ok (BdUtf8 k val' offs' (data ++ s0)))
+      by (destruct v; try contradiction; cbn [push]; rewrite Hu; reflexivity).
+    rewrite E, Hb. cbn [bind]. destruct val; cbn [set_validity bind]; rewrite Hinc; cbn [bind]; eexists; reflexivity.
+Qed.
